@@ -290,7 +290,9 @@ class BanditNodeVisitor:
             "file_data": self.fdata,
             "filename": self.fname,
             "lineno": 0,
-            "linerange": [0, 1],
+            # no source line belongs to the file as a whole: a "# nosec" on
+            # line 1 must not swallow file-level findings reported elsewhere
+            "linerange": [0],
             "col_offset": 0,
         }
         self.update_scores(self.tester.run_tests(self.context, "File"))
